@@ -22,7 +22,10 @@ RULE = ('A transport provider hands out successive SimNet transports, each attac
         'request-response and a generator-backed stream) are issued. Oracle per reconnect: close() was called on the old '
         'transport; every request pending on the old connection ended with an error; the first frame on the new transport '
         'is a fresh SETUP (exactly one); the first request on it uses stream id 1; respond-flagged KEEPALIVEs appear on it '
-        'at period P; both probes are answered with their scripted payloads. Non-trivial = a reconnect caused by a '
+        'at period P; both probes are answered with their scripted payloads; a structural summary of the client object '
+        '(every instance attribute: scalars by value, containers by size, tasks / futures / events by state, the stream '
+        'table, queues, lease objects and reassembly cache one level down) taken after a reconnect and before new traffic '
+        'equals the one taken right after the first connect. Non-trivial = a reconnect caused by a '
         'keepalive timeout or with requests pending, or >= 2 consecutive reconnects; distinct = case hash.')
 ASSUMPTIONS = ['a silent server is modelled by a link that drops everything written from a given moment on',
                'virtual clock for keepalive timing']
@@ -95,7 +98,7 @@ def build(case):
     if case['mode'] == 'on_ka_timeout':
         cfg['on_ka_timeout'] = 'reconnect'
     inter = []
-    ops = [['tick', 3], ['settle']]
+    ops = [['tick', 3], ['settle'], ['snap', 'c', 'fresh']]
     GRANT = ['lease', 100000, 100000000]
     if case.get('lease'):
         cfg['lease'] = {'queue': 0}
@@ -155,6 +158,8 @@ def build(case):
         if e.get('server_partial'):
             ops.append(['regime', 'pumped'])
         ops += [['tick', 6], ['settle']]
+        if not e['during']:
+            ops.append(['snap', 'c', 'reconnected:%d' % len(plan)])
         if case.get('lease'):
             ops += [GRANT, ['settle']]  # the new server grants a lease of its own
         ops += [['mark', 'reconnected']]
@@ -251,6 +256,26 @@ def judge(case):
                 if len(got) < 2 or not any(x['ev'] in ('on_complete',) or (x['ev'] == 'on_next' and x.get('complete')) for x in evs):
                     out.append(viol('probe_not_answered', 'C17:probe_not_answered:st', uid=uid, connection=ci, n=len(got),
                                     mode=case['mode'], ending=case['endings'][ci - 1]['kind'] if ci else None))
+    # a reconnected client that has not been used yet looks like a freshly connected one, attribute for attribute
+    snaps = {x['label']: x['state'] for x in log if x['ev'] == 'state_snapshot'}
+    fresh = snaps.get('fresh')
+
+    def diff(a, b, path, acc):
+        if isinstance(a, dict) and isinstance(b, dict):
+            for k in sorted(set(a) | set(b)):
+                diff(a.get(k, '<missing>'), b.get(k, '<missing>'), path + '.' + k, acc)
+        elif a != b:
+            acc.append((path, a, b))
+
+    for label, state in sorted(snaps.items()):
+        if label == 'fresh' or fresh is None:
+            continue
+        acc = []
+        diff(fresh, state, '', acc)
+        if acc:
+            out.append(viol('state_not_reset_by_reconnect', 'C17:state_not_reset:%s' % acc[0][0].lstrip('.'), snapshot=label,
+                            differences=[[p_, repr(a)[:60], repr(b)[:60]] for p_, a, b in acc[:6]], mode=case['mode']))
+            break
     # nothing of an earlier connection may survive in the receive-side state of the client
     fin = tr.final.get('c', {})
     if fin.get('frags'):
